@@ -134,9 +134,11 @@ def cases(tier, seed):
             for flt in ([], ["--rf-over", "0"], ["--unique"]):
                 for threads in (["-t", "8"], ["-t", "default:4,4"]):
                     meta = {"L": L, "combo": variants_, "layout": "same_base_names", "hard": False,
-                            "filter": " ".join(flt) or "default", "disk": "ssd", "extra": threads, "tr": ["keep", "in"]}
-                    out.append({"tree": tree, "roots": ["r1"], "args": ["--min", "0"] + flt + threads + G.transform_args("keep", "in"),
-                                "env": {"FCLONES_VERIF_DISK_KIND": "ssd"}, "meta": meta, "repeat": 2})
+                            "filter": " ".join(flt) or "default", "disk": "ssd", "extra": threads, "tr": ["barrierkeep", "in"]}
+                    # (the program reads its input only after the programs of four files have started: overlap is forced)
+                    out.append({"tree": tree, "roots": ["r1"], "args": ["--min", "0"] + flt + threads + G.transform_args("barrierkeep", "in"),
+                                "env": {"FCLONES_VERIF_DISK_KIND": "ssd", "FCV_TR_BARRIER_DIR": "@TMPDIR@/../fcv-barrier",
+                                        "FCV_TR_BARRIER_N": "4"}, "meta": meta, "repeat": 2})
     # overlapping input paths under a depth limit: what one root may not descend into, another root reaches directly
     tree = [{"p": "r1/f0", "k": "file", "c": ["base", 10, 0]}, {"p": "r1/d1/f1", "k": "file", "c": ["base", 10, 0]},
             {"p": "r1/d1/sub/f2", "k": "file", "c": ["base", 10, 0]}, {"p": "r1/d1/sub/deep/f3", "k": "file", "c": ["base", 10, 0]},
